@@ -180,7 +180,7 @@ TNext ==
                /\ l' = l + 1 /\ UNCHANGED <<tid, verdict>> /\ UNCHANGED vars
           ELSE IF ~Pre(S, e.op, e.a)
           THEN \* out of contract: not judged; resynchronise on the logged state when that is a legal state
-               IF Legal(e.post)
+               IF Legal(e.post) /\ ObsLegal(e)
                THEN /\ Report("stepooc", "pre") /\ SetS(e.post) /\ UNCHANGED path /\ l' = l + 1 /\ UNCHANGED <<tid, verdict>>
                ELSE /\ verdict' = "ooc" /\ Report("ooc", "pre") /\ UNCHANGED <<tid, l>> /\ UNCHANGED vars
           ELSE LET j == Judge(S, e) IN
